@@ -3,6 +3,7 @@
 package batchresource
 
 import (
+	"context"
 	"encoding/json"
 	"fmt"
 	"math"
@@ -22,10 +23,13 @@ import (
 	runtimeapi "github.com/koordinator-sh/koordinator/apis/runtime/v1alpha1"
 	slov1alpha1 "github.com/koordinator-sh/koordinator/apis/slo/v1alpha1"
 	"github.com/koordinator-sh/koordinator/pkg/koordlet/resourceexecutor"
+	"github.com/koordinator-sh/koordinator/pkg/koordlet/runtimehooks/hooks"
+	"github.com/koordinator-sh/koordinator/pkg/koordlet/runtimehooks/nri"
 	"github.com/koordinator-sh/koordinator/pkg/koordlet/runtimehooks/protocol"
 	"github.com/koordinator-sh/koordinator/pkg/koordlet/runtimehooks/reconciler"
 	"github.com/koordinator-sh/koordinator/pkg/koordlet/statesinformer"
 	sysutil "github.com/koordinator-sh/koordinator/pkg/koordlet/util/system"
+	rmconfig "github.com/koordinator-sh/koordinator/pkg/runtimeproxy/config"
 )
 
 // C14 entry-path harness.  ONE generated pod (spec containers declaring batch amounts, QoS marking, an
@@ -139,6 +143,40 @@ func c14eReadAll(v2 bool, dir string) c14eFiles {
 }
 
 func (f c14eFiles) String() string { return f[0] + " " + f[1] + " " + f[2] }
+
+// ---- the real NRI server for the UpdateContainer step ----
+// NriServer.UpdateContainer runs the hooks registered for PreUpdateContainerResources in the GLOBAL registry, so the
+// batchresource hook is registered there once (as plugin.Register does) and forwards to the plugin of the current case.
+var (
+	c14eNriPlugin *plugin
+	c14eNriSrv    nri.Server
+	c14eNriExec   resourceexecutor.ResourceUpdateExecutor
+	c14eNriReg    bool
+)
+
+func c14eNriServer(t *testing.T, executor resourceexecutor.ResourceUpdateExecutor) nri.Server {
+	if !c14eNriReg {
+		c14eNriReg = true
+		hooks.Register(rmconfig.PreUpdateContainerResources, "verif-c14-"+name, description+" (container)", func(proto protocol.HooksProtocol) error {
+			return c14eNriPlugin.SetContainerResources(proto)
+		})
+	}
+	if c14eNriSrv == nil || c14eNriExec != executor {
+		sock := "verif-c14-nri.sock" // NewNriServer only checks that the socket path exists; the stub is never started
+		if err := os.MkdirAll(sysutil.Conf.VarRunRootDir, 0o755); err != nil {
+			t.Fatal(err)
+		}
+		if err := os.WriteFile(filepath.Join(sysutil.Conf.VarRunRootDir, sock), nil, 0o644); err != nil {
+			t.Fatal(err)
+		}
+		srv, err := nri.NewNriServer(nri.Options{NriSocketPath: sock, PluginFailurePolicy: rmconfig.PolicyIgnore, Executor: executor})
+		if err != nil {
+			t.Fatalf("NewNriServer: %v", err)
+		}
+		c14eNriSrv, c14eNriExec = srv, executor
+	}
+	return c14eNriSrv
+}
 
 func TestVerifC14Entry(t *testing.T) {
 	h := vOpen("C14")
@@ -767,6 +805,92 @@ func c14eRunCase(t *testing.T, h *vHarness, helper *sysutil.FileTestUtil, execut
 					}
 				}
 			}
+			// --- NRI: UpdateContainer through the real NriServer (PreUpdateContainerResources stage of the global hook registry) ---
+			// The container already RUNS with some resources (container.Linux.Resources: absent / kubelet defaults / exactly the
+			// batch conversion / one field of it / random); the kubelet asks for its native values.  What the runtime applies is
+			// the plugin's ContainerUpdate merged field by field over the kubelet's request (absent field => kubelet's value).
+			// Private PRNG: the case's main stream is not advanced; no Op / Obs lines (oracle-only step, the model's create-path
+			// clause is the demand).
+			{
+				ur := vNewRand(h.Seed^0xC14E9, uint64(idx)*16+uint64(i))
+				srv := c14eNriServer(t, executor)
+				c14eNriPlugin = p
+				kube := [3]int64{2, -1, 0} // BE batch container as the kubelet sees it: min shares, no quota, no memory limit
+				if ur.Chance(1, 4) {
+					kube = [3]int64{int64(ur.Range(2, 4096)), []int64{-1, 0, int64(ur.Range(1000, 400000))}[ur.Intn(3)], []int64{0, int64(ur.Range(1, 1<<30))}[ur.Intn(2)]}
+				}
+				curKind := ur.Intn(6)
+				var cur *api.LinuxResources
+				mk := func(v [3]int64) *api.LinuxResources {
+					return &api.LinuxResources{
+						Cpu:    &api.LinuxCPU{Shares: api.UInt64(uint64(v[0])), Quota: api.Int64(v[1]), Period: api.UInt64(100000)},
+						Memory: &api.LinuxMemory{Limit: api.Int64(v[2])}}
+				}
+				switch curKind {
+				case 0: // no linux section at all
+				case 1: // empty resources
+					cur = &api.LinuxResources{}
+				case 2: // kubelet defaults
+					cur = mk(kube)
+				case 3: // exactly the conversion of the declared amounts (a batch container that is already right)
+					cur = mk(want)
+				case 4: // right in one or two fields only
+					v := [3]int64{int64(ur.Range(2, 4096)), int64(ur.Range(1000, 400000)), int64(ur.Range(1, 1<<30))}
+					keep := ur.Range(1, 6)
+					for k := 0; k < 3; k++ {
+						if keep&(1<<k) != 0 {
+							v[k] = want[k]
+						}
+					}
+					cur = mk(v)
+				default: // random
+					cur = mk([3]int64{int64(ur.Range(2, 4096)), []int64{-1, int64(ur.Range(1000, 400000))}[ur.Intn(2)], []int64{-1, int64(ur.Range(1, 1<<30))}[ur.Intn(2)]})
+				}
+				ctr := &api.Container{Id: uid + c.name, Name: c.name, PodSandboxId: "sb" + uid}
+				if curKind != 0 {
+					ctr.Linux = &api.LinuxContainer{Resources: cur}
+				}
+				var ups []*api.ContainerUpdate
+				var uerr error
+				if h.Guard(func() {
+					ups, uerr = srv.UpdateContainer(context.TODO(), sandbox("n"), ctr, mk(kube))
+				}) {
+					h.Fail("C14:nri-update-panic", "container %s: NriServer.UpdateContainer panics (current resources kind %d)", c.name, curKind)
+				} else if uerr != nil || len(ups) != 1 || ups[0] == nil {
+					h.Fail("C14:nri-update-answer", "container %s: NriServer.UpdateContainer answers %d updates, err %v", c.name, len(ups), uerr)
+				} else {
+					res := ups[0].GetLinux().GetResources()
+					applied, carried := kube, 0
+					if s := res.GetCpu().GetShares(); s != nil {
+						applied[0], carried = int64(s.GetValue()), carried|1
+					}
+					if q := res.GetCpu().GetQuota(); q != nil {
+						applied[1], carried = q.GetValue(), carried|2
+					}
+					if m := res.GetMemory().GetLimit(); m != nil {
+						applied[2], carried = m.GetValue(), carried|4
+					}
+					norm := func(v [3]int64) [3]int64 { // quota 0 / memory <= 0 mean "no limit" to the runtime
+						if v[1] == 0 {
+							v[1] = -1
+						}
+						if v[2] <= 0 {
+							v[2] = -1
+						}
+						return v
+					}
+					h.Tag(fmt.Sprintf("nri-update cur=%d carried=%d", curKind, carried))
+					switch {
+					case !isBE || !(annKnows && c.decl):
+						if carried != 0 {
+							h.Fail("C14:entry-nri-update-undeclared-written", "container %s: UpdateContainer answers {%s} although nothing declared is known for it (annotation shape %d, declares=%v, BE=%v)", c.name, res.String(), ann, c.decl, isBE)
+						}
+					case norm(applied) != norm(want):
+						h.Fail("C14:entry-nri-update-applied", "container %s (batch-cpu req %d lim %d, batch-memory lim %d): runs with {%s} (kind %d), kubelet asks shares/quota/memory %v, NriServer.UpdateContainer answers {%s} (fields carried mask %d) => the runtime applies %v, the declared amounts give %v",
+							c.name, c.req, c.lim, c.mem, cur.String(), curKind, kube, res.String(), carried, norm(applied), norm(want))
+					}
+				}
+			}
 			// --- runtime proxy: PreCreateContainer ---
 			{
 				ctx := &protocol.ContainerContext{}
@@ -965,7 +1089,7 @@ func c14eRunCase(t *testing.T, h *vHarness, helper *sysutil.FileTestUtil, execut
 
 const c14eRule = "one generated pod (0-4 spec containers declaring batch cpu request/limit, batch memory limit, or nothing; QoS by label/annotation/none) with an extended-resource-spec annotation of shape " +
 	"absent / \"\" / {} / {containers:null} / {containers:{}} / the webhook's dump / invalid JSON / null, cgroup v1 or v2, 0-2 rule callbacks (NodeSLO shapes nil / no strategy / policy unset / enable x policy; " +
-	"ratio annotation absent / malformed / 1.0 / >1 / <1 in several spellings); pushed through Pod+Container x FromNri/FromProxy/FromReconciler -> hooks -> NriDone/ProxyDone/ReconcilerDone and a history of 1-3 rule callbacks on the pod as an existing pod (each later one after a rule event that reported an update); " +
+	"ratio annotation absent / malformed / 1.0 / >1 / <1 in several spellings); pushed through Pod+Container x FromNri/FromProxy/FromReconciler -> hooks -> NriDone/ProxyDone/ReconcilerDone, every container also through the real NriServer.UpdateContainer with current resources in {absent, empty, kubelet's, exactly the conversion, partly right, random} (applied = update merged over the kubelet's request), and a history of 1-3 rule callbacks on the pod as an existing pod (each later one after a rule event that reported an update); " +
 	"the pod also carries 0-2 init containers declaring batch cpu / memory (limit sometimes absent; never part of the sums nor of the webhook's dump); " +
 	"one more reconciler pass pair on a pod cgroup that is missing at the first pass and created (kubelet defaults or random contents) before the second; " +
 	"observed: cgroup file contents, proxy responses, NRI adjustments; non-trivial = BE pod with >= 1 declaring container; distinct by op lines"
